@@ -55,10 +55,7 @@ namespace c14 {
     struct fmap_hash { uint32_t operator()( long k ) const { return (uint32_t) H( k ); } };
 
     // ================= flavours ==================================================================================
-    enum Flavor { FL_HP, FL_RCU, FL_NOGC };
-    enum ListKind { LK_PLAIN, LK_ITER, LK_FELDMAN };
 
-    inline long P( std::vector<long> const& cfg, size_t i, long dflt ) { return cfg.size() > i ? cfg[i] : dflt; }
 
     // builders: how a container of type C is constructed from the case configuration
     template <class C> struct BuildHash {      // MichaelHashSet/Map, SplitListSet/Map: ( item count, load factor )
